@@ -20,7 +20,7 @@ from xsdata.formats.dataclass.models.elements import XmlMeta, XmlVar
 from xsdata.formats.dataclass.serializers.config import SerializerConfig
 from xsdata.models.enums import DataType, Namespace, QNames
 from xsdata.utils import collections, namespaces
-from xsdata.utils.constants import EMPTY_MAP
+from xsdata.utils.constants import EMPTY_MAP, XML_TRUE
 from xsdata.utils.namespaces import generate_prefix, prefix_exists, split_qname
 
 XSI_NIL = (Namespace.XSI.uri, "nil")
@@ -257,7 +257,7 @@ class EventHandler(abc.ABC):
         if not self.pending_tag:
             return
 
-        if not is_nil:
+        if not is_nil and self.attrs.get(XSI_NIL) == XML_TRUE:
             self.attrs.pop(XSI_NIL, None)
 
         for name in self.attrs:
